@@ -78,7 +78,7 @@ package keeper
 //@   ensures binOf(s, F, C) == go_div(C - C % F, F)
 
 //@ func (Keeper).calculateRewardRewardPip22
-//@   props C27
+//@   props C27,C12
 //@   modifies bigv
 //@   ensures [stake-bin] result.i != nil && bigv[result.i] == scaled(old(bigv[multiplier.i]), old(bigv[relays.i]), weightOf(binOf(old(bigv[stake.i]), nFloor(ctx), nCeil(ctx)), nExp(ctx), nWM(ctx)))
 
@@ -128,7 +128,7 @@ package keeper
 // simpleSlash: removes min(amount, stake) (never negative) from the record, burns exactly what
 // was removed, and force-unstakes (jail + queue) a node left below the minimum stake.
 //@ func (Keeper).simpleSlash
-//@   props C25
+//@   props C25,C12
 //@   modifies all
 //@   ensures [request] slashReq == old(bigv[amount.i])
 //@   ensures [at-most-stake] removeN != old(removeN) ==> removeN == old(removeN) + 1 && removedAmt == max(0, min(old(bigv[amount.i]), old(valStake[bytes(addr)]))) && removedAmt <= old(valStake[bytes(addr)]) && removedAmt >= 0
@@ -138,7 +138,7 @@ package keeper
 //@   ensures [no-force-otherwise] forceN != old(forceN) ==> burnN != old(burnN) && old(valStake[bytes(addr)]) - removedAmt < nMinStake(ctx)
 
 //@ func (Keeper).BurnForChallenge
-//@   props C27
+//@   props C27,C12
 //@   modifies all
 //@   ensures [stake-bin] old(global(codec.UpgradeFeatureMap)["RSCAL"] != 0 && ctxHeight(ctx) >= global(codec.UpgradeFeatureMap)["RSCAL"]) && old(valHas[bytes(address)]) ==> slashReq == scaled(nRTTM(ctx), old(bigv[challenges.i]), weightOf(binOf(old(valStake[bytes(address)]), nFloor(ctx), nCeil(ctx)), nExp(ctx), nWM(ctx)))
 //@   ensures [stake-bin-asbuilt] old(global(codec.UpgradeFeatureMap)["RSCAL"] != 0 && ctxHeight(ctx) >= global(codec.UpgradeFeatureMap)["RSCAL"]) && old(valHas[bytes(address)]) ==> slashReq == scaled(nRTTM(ctx), old(bigv[challenges.i]), weightOf(go_div(min(old(valStake[bytes(address)]) - old(valStake[bytes(address)]) % nFloor(ctx), nCeil(ctx) - old(valStake[bytes(address)]) % nFloor(ctx)), nFloor(ctx)), nExp(ctx), nWM(ctx)))
@@ -159,7 +159,7 @@ package keeper
 //@   pure_fn
 
 //@ func (Keeper).ValidateEditStake
-//@   props C23
+//@   props C23,C12
 //@   ensures [no-decrease] result == nil ==> old(bigv[amount.i]) >= old(bigv[currentValidator.StakedTokens.i])
 //@   ensures [output-editor] result == nil && (featAt("NCUST", ctxHeight(ctx)) || tm3()) && (featAt("OEDIT", ctxHeight(ctx)) || tm3()) ==> currentValidator.OutputAddress == nil || addrEq(bytes(signer), bytes(currentValidator.OutputAddress)) || addrEq(bytes(newValidtor.OutputAddress), bytes(currentValidator.OutputAddress))
 //@   ensures [output-fixed] result == nil && (featAt("NCUST", ctxHeight(ctx)) || tm3()) && !(featAt("OEDIT", ctxHeight(ctx)) || tm3()) ==> currentValidator.OutputAddress == nil || addrEq(bytes(newValidtor.OutputAddress), bytes(currentValidator.OutputAddress))
@@ -191,7 +191,7 @@ package keeper
 // time; the stake is the larger of current and requested; output address / delegators follow
 // the feature flags; chains and service URL are taken from the message.
 //@ func (Keeper).EditStakeValidator
-//@   props C23
+//@   props C23,C12
 //@   modifies all
 //@   ensures [identity] result == nil ==> lastSetVal.Address == currentValidator.Address && lastSetVal.PublicKey == currentValidator.PublicKey && lastSetVal.Jailed == currentValidator.Jailed && lastSetVal.Status == currentValidator.Status && lastSetVal.UnstakingCompletionTime == currentValidator.UnstakingCompletionTime
 //@   ensures [stake] result == nil ==> lastSetValStake == max(old(bigv[currentValidator.StakedTokens.i]), old(bigv[amount.i]))
@@ -222,7 +222,7 @@ package keeper
 //@ pure unjailSigner(s Bytes, a Bytes, outNil bool, out Bytes) bool = addrEq(s, a) || (!outNil && addrEq(s, out))
 
 //@ func ValidateValidatorMsgSigner
-//@   props C25,C14
+//@   props C25,C14,C12
 //@   modifies nothing
 //@   ensures result1 == unjailSigner(bytes(signerAddress), bytes(validator.Address), validator.OutputAddress == nil, bytes(validator.OutputAddress))
 //@   ensures result1 == (result0 == nil)
